@@ -121,6 +121,39 @@ fn kind_tag(h: &HitObject) -> (u8, u32, u32) {
     }
 }
 
+/// the break periods written in the file's [Events] lines, for lines of the plain shape `2,<decimal>,<decimal>[,…]` / `Break,…` only
+/// (anything else — comments, blanks inside fields, exponents, huge values — is left to the decoder: `None` if any such break-like line occurs)
+fn ref_breaks(bytes: &[u8]) -> Option<Vec<(f64, f64)>> {
+    fn plain(f: &str) -> Option<f64> {
+        let digits = f.strip_prefix('-').unwrap_or(f);
+        let (int, frac) = digits.split_once('.').unwrap_or((digits, "0"));
+        if int.is_empty() || int.len() > 9 || frac.is_empty() || frac.len() > 6 || !int.bytes().chain(frac.bytes()).all(|b| b.is_ascii_digit()) {
+            return None;
+        }
+        f.parse().ok()
+    }
+    let (_, calls) = crate::frame::spec_frame(bytes)?;
+    let mut out = Vec::new();
+    for (sec, line) in calls {
+        if sec != 4 {
+            continue;
+        }
+        let f: Vec<&str> = line.split(',').collect();
+        if !(f[0] == "2" || f[0] == "Break") {
+            if f[0].trim() == "2" || f[0].trim().eq_ignore_ascii_case("break") {
+                return None;
+            }
+            continue;
+        }
+        if line.contains("//") || f.len() < 3 {
+            return None;
+        }
+        let (s, e) = (plain(f[1])?, plain(f[2])?);
+        out.push((s, s.max(e)));
+    }
+    Some(out)
+}
+
 pub fn prop_c15(bytes: &[u8]) -> String {
     let Ok(Pre { pre, mut map }) = rosu_map::from_bytes::<Pre>(bytes) else { return "SKIP decode-error".into() };
     if pre.iter().any(|h| h.start_time.is_nan()) {
@@ -145,6 +178,40 @@ pub fn prop_c15(bytes: &[u8]) -> String {
     for w in map.hit_objects.windows(2) {
         if !(w[0].start_time <= w[1].start_time) {
             return "FAIL start times decrease".into();
+        }
+    }
+    // the break lines of the file, read here from the text (plain decimal fields only): each must be among the decoded breaks — the
+    // clause below is about the breaks of the FILE, not about whichever of them a decoder chose to keep
+    if let Some(want) = ref_breaks(bytes) {
+        for (s, e) in &want {
+            if !map.breaks.iter().any(|b| b.start_time.to_bits() == s.to_bits() && b.end_time.to_bits() == e.to_bits()) {
+                return format!("FAIL the break line {s},{e} of the file is not among the decoded breaks");
+            }
+        }
+        if want.len() > map.breaks.len() {
+            return format!("FAIL {} break lines in the file, {} decoded breaks", want.len(), map.breaks.len());
+        }
+    }
+    // "the beat length / multiplier / sample point ACTIVE at a time" must be defined: one stored point per time in each list
+    fn one_per_time(name: &str, ts: Vec<f64>) -> Result<(), String> {
+        for w in ts.windows(2) {
+            if !(w[0] < w[1]) && !(w[0] == 0.0 && w[1] == 0.0 && w[0].to_bits() != w[1].to_bits()) {
+                return Err(format!("FAIL the {name} points of the decoded map are not strictly increasing in time ({} then {}): the point active at a time is not defined", w[0], w[1]));
+            }
+        }
+        Ok(())
+    }
+    {
+        let cp = &map.control_points;
+        for r in [
+            one_per_time("timing", cp.timing_points.iter().map(|p| p.time).collect()),
+            one_per_time("difficulty", cp.difficulty_points.iter().map(|p| p.time).collect()),
+            one_per_time("effect", cp.effect_points.iter().map(|p| p.time).collect()),
+            one_per_time("sample", cp.sample_points.iter().map(|p| p.time).collect()),
+        ] {
+            if let Err(e) = r {
+                return e;
+            }
         }
     }
     // 2. the first object after each break starts a new combo
